@@ -247,7 +247,15 @@ func (a *acquisition) mustHoldAt(ins ssa.Instruction) bool {
 		return false
 	}
 	if a.Release != nil && !a.Defer {
-		// released early: held only if the release cannot precede ins
+		// released early: held only if the release cannot come between the acquisition and ins
+		rb, ri := a.Release.Block(), prog.InstrIndex(a.Release)
+		if sb == ins.Block() {
+			// straight-line inside the acquiring block: every entry into the block passes the acquisition first
+			if rb == sb && ri > si && ri < prog.InstrIndex(ins) {
+				return false
+			}
+			return true
+		}
 		if prog.MayPrecede(a.Release, ins) {
 			return false
 		}
